@@ -230,6 +230,10 @@ func NewWorld(r drv.Rand) *World {
 		w.tag("tepolicy=variant")
 	}
 	storage := st.AsStorageTEPolicy(w.Policy)
+	if r.Bool() { // optional storage interfaces as an environment dimension
+		storage = st.AsStorageTEPolicyFromRequest(w.Policy)
+		w.tag("storage=+CanGetPrivateClaimsFromRequest")
+	}
 	var err error
 	if r.Bool() {
 		w.Dynamic = true
@@ -690,7 +694,11 @@ func (w *World) Exchange(r opfix.Router, x Exch) {
 			} else if p := opfix.JWTPayload(at); p != nil {
 				d := descOf(p, true)
 				id = d.jti
-				access = emit.Ctor("XJwt", SidTerm(id), emit.Str(d.sub))
+				act := "" // the actor the token carries: act.sub
+				if a, ok := p["act"].(map[string]any); ok {
+					act, _ = a["sub"].(string)
+				}
+				access = emit.Ctor("XJwt", SidTerm(id), emit.Str(d.sub), emit.Str(act))
 				w.Pool = append(w.Pool, &Tok{S: at, Kind: "jwt-at", Client: client, Sub: d.sub, jwt: d})
 			} else {
 				access = "XOther"
